@@ -145,6 +145,17 @@ CLAIMS = {
                 'exception on every path.',
         'note': _NOTE,
     },
+    'C02': {
+        'text': 'Programs of 2-3 activities over the op alphabet with symbolic leading dates: per '
+                'path the FIFO oracle of the probe (schedule-call order == run order inside a '
+                'time step), equality of the traces on the heap and the SortedDict backend '
+                '(times by solver), identical traces of repeated real executions under heap '
+                'perturbation in the concrete validation run, and a second exploration under '
+                'python -O whose paths (identified by their free decisions) must carry identical '
+                'symbolic traces.',
+        'note': _NOTE + '; float absorption (now + tiny == now) and hash-seed effects on str '
+                        'hashing are outside the exact-arithmetic claim',
+    },
 }
 
 NOT_APPLICABLE = {}
